@@ -12,11 +12,13 @@ import (
 // C04 - Joins return the textbook multiset for every join type and strategy.
 
 type C04Case struct {
-	Doc   map[string]any `json:"doc"`  // {"l": [...], "r": [...]}
-	Type  string         `json:"type"` // inner | left | right
-	On    *sq.E          `json:"on"`
-	OnAlt *sq.E          `json:"on_alt"` // same condition, conjuncts shuffled / operands flipped
-	Reps  int            `json:"reps"`   // repetitions of PARALLEL variants
+	Doc map[string]any `json:"doc"` // {"l": [...], "r": [...]}
+	// GoTypes: table -> column -> Go numeric type in which the engine receives that key column
+	GoTypes map[string]map[string]string `json:"go_types,omitempty"`
+	Type    string                       `json:"type"` // inner | left | right
+	On      *sq.E                        `json:"on"`
+	OnAlt   *sq.E                        `json:"on_alt"` // same condition, conjuncts shuffled / operands flipped
+	Reps    int                          `json:"reps"`   // repetitions of PARALLEL variants
 }
 
 func init() {
@@ -25,7 +27,7 @@ func init() {
 		Title: "Joins return the textbook multiset for every join type and strategy",
 		Rule: "rapid draws two tables (0-6 rows) with 1-3 key columns per side whose names are drawn independently (so they sort differently on " +
 			"the two sides), key values from shared pools of 2-3 values (duplicates, multi-column combinations, strings containing '-' and " +
-			"digits-as-text), an ON tree of column-to-column comparisons (= != < <= > >=, either orientation) joined by AND/OR (depth<=3; pure " +
+			"digits-as-text; a third of the numeric key columns are handed over as native Go int*/uint*/float32 values, independently per side), an ON tree of column-to-column comparisons (= != < <= > >=, either orientation) joined by AND/OR (depth<=3; pure " +
 			"equi-conjunctions forced often) and a join type; every applicable spelling (JOIN, INNER JOIN, STRAIGHT_JOIN, [LEFT|RIGHT] [OUTER] JOIN, " +
 			"HASH_JOIN variants for pure equi ON, each also PARALLEL, PARALLEL ones repeated) plus a permuted/flipped ON is executed; oracle = " +
 			"nested-loop reference multiset {x:l,y:r} + unmatched outer rows once. Non-trivial: both sides non-empty, >=1 matching pair and, " +
@@ -91,6 +93,18 @@ func genC04(t *rapid.T) any {
 		return rows
 	}
 	c := &C04Case{Doc: map[string]any{"l": mk("l", lnames, "l"), "r": mk("r", rnames, "r")}}
+	c.GoTypes = map[string]map[string]string{"l": {}, "r": {}}
+	for i, p := range pairs {
+		if p.kind != "int" {
+			continue
+		}
+		if typ := genGoTypesForPool(t, p.pool, fmt.Sprintf("gotype.l%d", i)); typ != "" {
+			c.GoTypes["l"][p.l] = typ
+		}
+		if typ := genGoTypesForPool(t, p.pool, fmt.Sprintf("gotype.r%d", i)); typ != "" {
+			c.GoTypes["r"][p.r] = typ
+		}
+	}
 	c.Type = rapid.SampledFrom([]string{"inner", "left", "right"}).Draw(t, "type")
 	equi := rapid.IntRange(0, 1).Draw(t, "equi") == 0
 	atom := func(i int, label string) *sq.E {
@@ -336,7 +350,7 @@ func checkC04(c *C04Case) Result {
 		reps = 1
 	}
 	run := func(sql string, label string) string {
-		out := Run(val.CopyMap(c.Doc), sql, Opts{})
+		out := Run(typedDoc(c.Doc, c.GoTypes), sql, Opts{})
 		res.Execs++
 		if !out.OK() {
 			return fmt.Sprintf("%s\n  expected multiset %s\n  got %s", sql, val.JSON(want), out.Describe())
